@@ -310,9 +310,14 @@ class LRUCache(_CacheBase):
         if self._allow_cloudpickle and self.shared:
             value = cloudpickle.dumps(value)
         with self._cache_lock:
+            is_resident = key in self._cache_dict
             self._cache_dict[key] = value
             cache_size = len(self._cache_queue)
-            if cache_size < self.max_size:
+            if is_resident:
+                # Move key to back of queue (do not evict or duplicate)
+                self._cache_queue.remove(key)
+                self._cache_queue.append(key)
+            elif cache_size < self.max_size:
                 self._cache_queue.append(key)
             else:
                 key_to_evict = self._cache_queue.pop(0)
